@@ -382,6 +382,7 @@ pub struct StepGuard {
     pub f0: usize,
     pub r0: bool,
     pub vals0: Option<String>,
+    pub refs0: Vec<Value>,
 }
 
 impl StepGuard {
@@ -396,7 +397,8 @@ impl StepGuard {
             b0: vm.stack_base,
             f0: vm.call_stack.len(),
             r0: vm.string_op_index1 != 0 || vm.string_op_index2 != 0,
-            vals0: if on(T_VAL) { Some(step_vals(vm, vm.pc.0, vm.stack_base, true)) } else { None },
+            vals0: if on(T_VAL) { Some(step_vals(vm, vm.pc.0, vm.stack_base, true, &[]).0) } else { None },
+            refs0: if on(T_VAL) { step_vals(vm, vm.pc.0, vm.stack_base, true, &[]).1 } else { vec![] },
         })
     }
 }
@@ -432,15 +434,47 @@ fn val_short(v: &Value) -> String {
     }
 }
 
+/// one level of an object's contents (structs, arrays - first 8 elements and the length -, variants)
+fn obj_shallow(v: &Value) -> Option<String> {
+    if !v.1.is_pointer() || is_quarantined(v.0 as usize) {
+        return None;
+    }
+    let header_ptr = v.0 as *mut ObjectHeader;
+    let kind = unsafe { (*header_ptr).kind };
+    match kind {
+        ObjectKind::Struct => {
+            let obj = unsafe { &*(header_ptr as *const StructObject) };
+            let fs: Vec<String> = obj.get_fields().iter().map(val_short).collect();
+            Some(format!(r#"{{"k":"struct","fs":[{}]}}"#, fs.join(",")))
+        }
+        ObjectKind::Array => {
+            let obj = unsafe { &*(header_ptr as *const ArrayObject) };
+            let es: Vec<String> = obj.data.iter().take(8).map(val_short).collect();
+            Some(format!(r#"{{"k":"array","len":{},"es":[{}]}}"#, obj.data.len(), es.join(",")))
+        }
+        ObjectKind::Enum => {
+            let obj = unsafe { &*(header_ptr as *const EnumObject) };
+            Some(format!(r#"{{"k":"variant","tag":{},"val":{}}}"#, obj.tag, val_short(&obj.val)))
+        }
+        _ => None,
+    }
+}
+
+fn ref_key(v: &Value) -> String {
+    format!("{}{}", tag_name(v.1), v.0)
+}
+
 /// Uninterpreted projection of the state an instruction can touch: the top four stack values, the frame slots named by
 /// any number in the instruction (read as a stack offset relative to `base`), and (before only) the constants any number
 /// in it indexes.  Which of these the instruction really uses is for the specification to say.
-fn step_vals(vm: &VmGreenThread, pc: u32, base: usize, before: bool) -> String {
+fn step_vals(vm: &VmGreenThread, pc: u32, base: usize, before: bool, also: &[Value]) -> (String, Vec<Value>) {
     let n = vm.value_stack.len();
     let top: Vec<String> = vm.value_stack[n.saturating_sub(4)..].iter().map(val_short).collect();
+    let mut refs: Vec<Value> = vm.value_stack[n.saturating_sub(4)..].iter().filter(|v| v.1.is_pointer()).copied().collect();
+    refs.extend(also.iter().copied());
     let mut out = format!(r#""top":[{}]"#, top.join(","));
     let Some(instr) = vm.shared.program.get(pc as usize) else {
-        return out;
+        return (out, refs);
     };
     let nums = debug_nums(&format!("{:?}", instr));
     let mut slots: Vec<String> = vec![];
@@ -466,6 +500,9 @@ fn step_vals(vm: &VmGreenThread, pc: u32, base: usize, before: bool) -> String {
             let idx = base as i64 + off;
             if idx >= 0 && (idx as usize) < n {
                 slots.push(format!(r#""{}":{}"#, x, val_short(&vm.value_stack[idx as usize])));
+                if vm.value_stack[idx as usize].1.is_pointer() {
+                    refs.push(vm.value_stack[idx as usize]);
+                }
             }
         }
         if before && x >= 0 {
@@ -481,7 +518,19 @@ fn step_vals(vm: &VmGreenThread, pc: u32, base: usize, before: bool) -> String {
     if before {
         out.push_str(&format!(r#","ki":{{{}}},"kf":{{{}}}"#, ki.join(","), kf.join(",")));
     }
-    out
+    let mut objs: Vec<String> = vec![];
+    let mut done: Vec<u64> = vec![];
+    for r in &refs {
+        if done.contains(&r.0) {
+            continue;
+        }
+        done.push(r.0);
+        if let Some(o) = obj_shallow(r) {
+            objs.push(format!(r#""{}":{}"#, ref_key(r), o));
+        }
+    }
+    out.push_str(&format!(r#","objs":{{{}}}"#, objs.join(",")));
+    (out, refs)
 }
 
 /// optimizer hook: one peephole rewrite (`before` lines replaced by `after` lines)
@@ -572,7 +621,7 @@ impl Drop for StepGuard {
                     json_str(&dbg),
                     json_str(&ek),
                     v0,
-                    step_vals(vm, self.pc, self.b0, false)
+                    step_vals(vm, self.pc, self.b0, false, &self.refs0).0
                 )
             }
             _ => String::new(),
